@@ -141,6 +141,38 @@ def _buf13(x):          # a polynomial with a leading axis of length 1 is writte
     return A.sum(b * b * np.array([[1.0, 2.0, -1.0], [0.5, -0.5, 3.0]]), axis=0)
 
 
+def _buf14(x):          # a buffer is updated with an augmented assignment after a view of it was taken: the view follows (NumPy semantics)
+    b = A.zeros(3, dtype=x)
+    b[...] = x * 0.5
+    v = b[:]
+    b += x * 2.0
+    w = b[1:]
+    b *= 1.5
+    return v * 3.0 + b + A.sum(w)
+
+
+def _buf15(x):          # a function with a second result that re-uses the scratch buffer of the first one; only the first is returned
+    work = A.zeros(3, dtype=x)
+    work[...] = A.sin(x) + 2.0
+    y = x * work * work
+    work[0] = x[1] * x[2]              # recorded after the result: overwrites what y was computed from
+    work[1:] = 7.5
+    unused = work * 2.0
+    return y
+
+
+def _buf16(x):          # a zero-dimensional view of a buffer entry (index with an Ellipsis: a view in NumPy as well; buf[()] is a scalar copy there and is not used); the entry is overwritten, the view read
+    b = A.zeros(3, dtype=x)
+    b[...] = x * 1.5
+    v = b[1, ...]
+    acc = A.zeros((), dtype=x)
+    acc[...] = x[0] * x[2]
+    u = acc[...]
+    b[1] = x[0] * x[0]
+    acc[...] = x[1]
+    return b * v + u * x
+
+
 def _buf3(x):           # 2-D buffer, slices, column overwritten from other columns
     B = A.zeros((2, 3), dtype=x)
     B[0, :] = x
@@ -193,6 +225,10 @@ def catalogue():
         add(nm, (lambda g: lambda x: g(x))(getattr(SP, nm)), [(V, dom)], ['unary', 'special'])
     add('polygamma1', lambda x: SP.polygamma(1, x), [(V, 'gamma')], ['unary', 'special'])
     add('hyperu', lambda x: SP.hyperu(1.5, 2.25, x), [(V, 'gamma')], ['unary', 'special'])
+    # the order / the parameter given as arrays and as integers
+    add('polygamma:array_order', lambda x: SP.polygamma(np.array([0, 1, 2]), x) * x, [(V, 'gamma')], ['unary', 'special'])
+    add('polygamma:array_order_0d', lambda x: SP.polygamma(np.array(2), x) + SP.polygamma(np.int64(1), x), [(V, 'gamma')], ['unary', 'special'])
+    add('hyperu:integer_a', lambda x: SP.hyperu(2, 1.5, x) + SP.hyperu(-2, 0.5, x), [(V, 'gamma')], ['unary', 'special'])
     add('clip_in', lambda x: SP.botched_clip(-3.0, 3.0, x), [(V, 'nz')], ['unary'])
     add('clip_out', lambda x: SP.botched_clip(-0.2, 0.2, x), [(V, 'nz')], ['unary'])
     add('neg_op', lambda x: -x, [(V, 'R')], ['unary'])
@@ -205,6 +241,9 @@ def catalogue():
     # integer powers at base points with exact zeros (polynomials are smooth there)
     for r in (1, 2, 3, np.int64(1), np.int64(2), np.int64(4)):
         add('pow_zero_base_%s%s' % ('np' if isinstance(r, np.integer) else '', int(r)), (lambda r: lambda x: x ** r)(r), [(V, 'Rzero')], ['unary', 'pow', 'zero-base'])
+    # ... also when the integer exponent is spelled as a float (x ** 2.0 is the polynomial x ** 2)
+    for r in (2.0, 3.0, np.float64(2.0), 1.0):
+        add('pow_zero_base_float%s%s' % ('np' if isinstance(r, np.floating) else '', int(r)), (lambda r: lambda x: x ** r)(r), [(V, 'Rzero')], ['unary', 'pow', 'zero-base'])
     add('square_zero_base', lambda x: A.square(x) + x * x, [(V, 'Rzero')], ['unary', 'zero-base'])
     # elementwise programs that are also replayed with complex values (C05)
     add('real_imag_of_input', lambda x: A.real(x) * 1.5 + A.imag(x) * 0.5, [(V, 'R')], ['cplx_replay', 'nonunique'])     # imag of a real value: only meaningful for the C05 complex replays
@@ -243,6 +282,10 @@ def catalogue():
     add('reshape:method', lambda X: X.reshape((3, 2)) * 2.0, [((2, 3), 'R')], ['reshape'])
     add('reshape:noncontiguous', lambda X: A.reshape(X.T, (6,)) * np.arange(1., 7.), [((2, 3), 'R')], ['reshape', 'noncontig'])
     add('reshape:of_product', lambda X: A.reshape(X * X, (3, 2)), [((2, 3), 'R')], ['reshape'])
+    # .T / transpose of vectors and scalars (the identity, but a node of the graph all the same)
+    add('transpose:of_vector', lambda x: x.T * x + A.transpose(A.sin(x)), [(V, 'R')], ['index'])
+    add('transpose:of_vector_intermediate', lambda x, B: A.dot(A.dot(B, x).T, B) + x.T, [(V, 'R'), (M, 'R')], ['index', 'binary'])
+    add('transpose:of_scalar', lambda x: A.sum(x * x).T * x + (x[0] * x[1]).T, [(V, 'R')], ['index'])
     add('transpose:of_product', lambda X: A.transpose(X * X) * np.arange(1., 7.).reshape(3, 2), [((2, 3), 'R')], ['index'])
     # --- buffers
     add('buffer:write_once', _buf1, [(V, 'R')], ['buffer'])
@@ -256,6 +299,9 @@ def catalogue():
     add('buffer:one_value_into_several_slots', _buf11, [(V, 'R')], ['buffer'])
     add('buffer:row_into_block', _buf12, [(V, 'R')], ['buffer'])
     add('buffer:leading_axis_of_length_one_into_rows', _buf13, [(V, 'R')], ['buffer', 'overwrite'])
+    add('buffer:augmented_assignment_seen_through_view', _buf14, [(V, 'R')], ['buffer', 'overwrite', 'augmented'])
+    add('buffer:scratch_reused_after_result', _buf15, [(V, 'R')], ['buffer', 'overwrite'])
+    add('buffer:zero_dimensional_views', _buf16, [(V, 'R')], ['buffer', 'overwrite'])
     add('buffer:constant_overwrites_active_entry', _buf6, [(V, 'R')], ['buffer', 'overwrite', 'const'])
     add('buffer:constant_array_overwrites_slice', _buf7, [(V, 'R')], ['buffer', 'overwrite', 'const'])
     # --- reductions
@@ -366,6 +412,50 @@ def catalogue():
     add('fft:axis0', lambda X: A.real(A.fft.fft(X, axis=0)), [((3, 2), 'R')], ['fft', 'kwargs'])
     add('ifft:axis0', lambda X: A.imag(A.fft.ifft(X, axis=0)) + A.real(A.fft.ifft(X, axis=0)), [((3, 2), 'R')], ['fft', 'kwargs'])
     add('conjugate', lambda x: A.real(A.conjugate(A.fft.fft(x)) * A.fft.fft(x)), [((4,), 'R')], ['fft'])
+    # a complex intermediate with several consumers: its real part, its imaginary part and arithmetic on it, in every order
+    add('fft:imag_then_real_of_square', lambda x: (lambda z: A.imag(z) * A.imag(z) + A.real(z * z))(A.fft.fft(x)), [((4,), 'R')], ['fft'])
+    add('fft:real_of_square_then_imag', lambda x: (lambda z: A.real(z * z) + A.imag(z) * A.imag(z))(A.fft.fft(x)), [((4,), 'R')], ['fft'])
+    add('fft:imag_twice', lambda x: (lambda z: A.imag(z) * A.real(z) + 2.0 * A.imag(z))(A.fft.fft(x)), [((4,), 'R')], ['fft'])
+    add('fft:real_twice_and_imag', lambda x: (lambda z: A.real(z) * A.real(z) + A.real(z) - A.imag(z * z) + A.imag(z))(A.fft.fft(x)), [((4,), 'R')], ['fft'])
+    # real and complex operands mixed in one operation (the real one on either side)
+    add('fft:spectrum_minus_signal', lambda x: (lambda w: A.real(w * w) + A.imag(w))(A.fft.fft(x) - x), [((4,), 'R')], ['fft'])
+    add('fft:signal_minus_spectrum', lambda x: (lambda w: A.real(w * w) + A.imag(w))(x - A.fft.fft(x)), [((4,), 'R')], ['fft'])
+    add('fft:signal_times_spectrum', lambda x: A.real(x * A.fft.fft(x)) + A.imag(A.fft.fft(x) * x), [((4,), 'R')], ['fft'])
+    add('fft:spectrum_over_signal', lambda x: A.real(A.fft.fft(x) / (x + 3.0)) + A.imag((x + 3.0) / (A.fft.fft(x) + 9.0)), [((4,), 'unit')], ['fft'])
+
+    def _inv_of_spectrum(x):
+        z = A.fft.fft(x)
+        Mz = A.zeros((2, 2), dtype=z)
+        Mz[0, 0] = z[0] + 6.0; Mz[0, 1] = z[1]; Mz[1, 0] = z[2]; Mz[1, 1] = z[3] + 7.0
+        return A.real(A.inv(Mz)) + A.imag(A.inv(Mz))
+    add('fft:inv_of_complex_matrix', _inv_of_spectrum, [((4,), 'unit')], ['fft', 'linalg'])
+
+    def _solve_with_spectrum(x):
+        z = A.fft.fft(x)
+        Mz = A.zeros((2, 2), dtype=z)
+        Mz[0, 0] = z[0] + 6.0; Mz[0, 1] = z[1]; Mz[1, 0] = z[2]; Mz[1, 1] = z[3] + 7.0
+        b = A.zeros((2, 1), dtype=z)
+        b[0, 0] = z[1]; b[1, 0] = z[2] + 1.0
+        return A.real(A.solve(Mz, b)) - A.imag(A.solve(Mz, b))
+    add('fft:solve_with_complex_matrix', _solve_with_spectrum, [((4,), 'unit')], ['fft', 'linalg'])
+    def _solve_complex_matrix_real_rhs(x):
+        z = A.fft.fft(x)
+        Mz = A.zeros((2, 2), dtype=z)
+        Mz[0, 0] = z[0] + 6.0; Mz[0, 1] = z[1]; Mz[1, 0] = z[2]; Mz[1, 1] = z[3] + 7.0
+        b = A.zeros((2, 1), dtype=x)
+        b[0, 0] = x[0]; b[1, 0] = x[1] * x[2]
+        return A.real(A.solve(Mz, b)) + A.imag(A.solve(Mz, b))
+    add('fft:solve_complex_matrix_real_rhs', _solve_complex_matrix_real_rhs, [((4,), 'unit')], ['fft', 'linalg'])
+
+    def _solve_real_matrix_complex_rhs(x):
+        z = A.fft.fft(x)
+        Mr = A.zeros((2, 2), dtype=x)
+        Mr[0, 0] = x[0] + 6.0; Mr[0, 1] = x[1]; Mr[1, 0] = x[2]; Mr[1, 1] = x[3] + 7.0
+        b = A.zeros((2, 1), dtype=z)
+        b[0, 0] = z[1]; b[1, 0] = z[2]
+        return A.real(A.solve(Mr, b)) + A.imag(A.solve(Mr, b))
+    add('fft:solve_real_matrix_complex_rhs', _solve_real_matrix_complex_rhs, [((4,), 'unit')], ['fft', 'linalg'])
+    add('fft:dot_of_spectra', lambda x: (lambda z: A.real(A.dot(z, z)) + A.imag(A.dot(z, x)))(A.fft.fft(x)), [((4,), 'R')], ['fft'])
     # elementary functions and arithmetic applied to complex intermediates of a real program
     for nm, g in [('sqrt', lambda z: A.sqrt(z + 9.0)), ('exp', lambda z: A.exp(0.2 * z)), ('log', lambda z: A.log(z + 9.0)), ('sin', lambda z: A.sin(0.3 * z)),
                   ('cos', lambda z: A.cos(0.3 * z)), ('square', lambda z: A.square(z)), ('reciprocal', lambda z: A.reciprocal(z + 9.0)), ('pow2.5', lambda z: (z + 9.0) ** 2.5),
